@@ -92,7 +92,8 @@ class Node:
         """skip implicit and explicit value-preserving casts, functional casts and temporaries"""
         n = self
         while True:
-            if n.k in ("ImplicitCastExpr", "CXXStaticCastExpr", "CStyleCastExpr", "CXXFunctionalCastExpr") and n.c:
+            if n.k in ("ImplicitCastExpr", "CXXStaticCastExpr", "CStyleCastExpr", "CXXFunctionalCastExpr", "CXXReinterpretCastExpr",
+                       "CXXConstCastExpr") and n.c:
                 n = n.c[0]
             else:
                 return n
